@@ -896,6 +896,7 @@ static sexp sexp_save_stack (sexp ctx, sexp *stack, sexp_uint_t to) {
   sexp res, *data;
   sexp_uint_t i;
   res = sexp_make_vector(ctx, sexp_make_fixnum(to), SEXP_VOID);
+  if (sexp_exceptionp(res)) return res;
   data = sexp_vector_data(res);
   for (i=0; i<to; i++)
     data[i] = stack[i];
@@ -1245,12 +1246,17 @@ sexp sexp_apply (sexp ctx, sexp proc, sexp args) {
     i = 1;
     sexp_context_top(ctx) = top;
     tmp2 = sexp_make_vector(ctx, SEXP_ONE, SEXP_UNDEF);
-    sexp_vector_set(tmp2, SEXP_ZERO, sexp_save_stack(ctx, stack, top+4));
+    if (sexp_exceptionp(tmp2)) {_ARG1 = tmp2; goto call_error_handler;}
+    tmp1 = sexp_save_stack(ctx, stack, top+4);
+    if (sexp_exceptionp(tmp1)) {_ARG1 = tmp1; goto call_error_handler;}
+    sexp_vector_set(tmp2, SEXP_ZERO, tmp1);
+    tmp1 = _ARG1;
     _ARG1 = sexp_make_procedure(ctx,
                                 SEXP_ZERO,
                                 SEXP_ONE,
                                 sexp_global(ctx, SEXP_G_RESUMECC_BYTECODE),
                                 tmp2);
+    sexp_check_exception();
     top++;
     ip -= sizeof(sexp);
     goto make_call;
